@@ -2,8 +2,8 @@
 
 (D)    spec/JsonRoundTrip.tla: object trees over the schema of serialisable classes, lifecycles
        of Encode / Load / DecodeDict / DecodeAgain / Reencode.  MC_JsonRoundTrip.cfg (required
-       tables) must hold; MC_JsonRoundTrip_pinned_*.cfg (tables transcribed from the pinned
-       source) must each be REJECTED by TLC.
+       tables) must hold; with the tables transcribed from the pinned source
+       (MC_JsonRoundTrip_pinned.cfg / _pinned_all.cfg) TLC must REJECT all seven invariants.
 (S->C) Cases_JsonRoundTrip.tla writes the schema and every enumerated tree with the outcome TLC
        computes ("same"); MC_JsonRoundTrip_life.cfg gives the lifecycles.  Each (tree, lifecycle)
        is built from real objects with random non-default attribute values and run through the
@@ -101,7 +101,7 @@ def _pick_cases(ctx, trees, lives):
         v.sort(key=lambda t: json.dumps(t, sort_keys=True))
         rnd.shuffle(v)
     cases = []
-    n_target = ctx.pick(640, 10 ** 9)
+    n_target = ctx.pick(520, 10 ** 9)
     # every root class with every lifecycle on its smallest trees, then a stratified sample
     for root, ts in sorted(by_root.items()):
         small = sorted(ts, key=_size)[:1]
@@ -117,13 +117,19 @@ def _pick_cases(ctx, trees, lives):
         i += 1
         if by_root[r]:
             pool.append(by_root[r].pop())
-    per_tree = 1 if ctx.quick else 2
+    per_tree = 1
     for j, t in enumerate(pool):
         for q in range(per_tree):
             cases.append((t, lives[(j * per_tree + q * 5 + rnd.randrange(len(lives))) % len(lives)]))
     out = []
     for n, (t, lf) in enumerate(cases):
         out.append({'cid': n, 'tree': t, 'life': lf, 'seed': rnd.randrange(1 << 30)})
+    # objects that do not come from the schema enumeration: float-built LSR, unnamed species,
+    # the repository's own example objects
+    for j, name in enumerate(sorted(lib_c11.EXTRAS)):
+        for q in range(2 if ctx.quick else len(lives)):
+            out.append({'cid': len(out), 'extra': name, 'life': lives[(j + 5 * q) % len(lives)],
+                        'seed': rnd.randrange(1 << 30)})
     return out
 
 
@@ -139,16 +145,20 @@ def run(ctx):
     pool = cf.ThreadPoolExecutor(max_workers=4)
     futs = []
     pinned_cases = None
+    import time
+    t0 = time.time()
+    timing = {}
     if ctx.replay_case is not None:
         data = _load_cases('Cases_%s_required_d0' % MODULE)
         cases = [ctx.replay_case['case']]
     else:
         # (D) design model, in the background
-        futs.append(pool.submit(ctx.model, 'MC_' + MODULE, 'MC_' + MODULE + ('' if ctx.quick else '_d4'),
-                                4 if ctx.quick else 6, True, None, 3000))
-        for inv in PINNED:
-            futs.append(pool.submit(ctx.model, 'MC_' + MODULE, 'MC_%s_pinned_%s' % (MODULE, inv), 1, False))
-        fut_pinned = pool.submit(_load_cases, 'Cases_%s_pinned_d%d' % (MODULE, depth))
+        futs.append(pool.submit(ctx.model, 'MC_' + MODULE, 'MC_' + MODULE + ('' if ctx.quick else '_d3'),
+                                2 if ctx.quick else 6, True, None, 3000))
+        fut_rej = pool.submit(ctx.model, 'MC_' + MODULE, 'MC_%s_pinned_all' % MODULE, 1, True)
+        if not ctx.quick:
+            futs.append(pool.submit(ctx.model, 'MC_' + MODULE, 'MC_%s_pinned' % MODULE, 2, False))
+            fut_pinned = pool.submit(_load_cases, 'Cases_%s_pinned_d%d' % (MODULE, depth))
         # (S->C) cases and lifecycles from TLC
         data = _load_cases('Cases_%s_required_d%d' % (MODULE, depth))
         bad = [c for c in data['cases']
@@ -160,34 +170,46 @@ def run(ctx):
         lives = [core.parse_tla(p)[1] for p in r.prints() if core.tagged(p, 'LIFE')]
         if not r.ok or len(lives) < 5:
             raise core.MachineryError('lifecycle generation failed:\n' + r.out[-2000:])
+        timing['cases_and_lifecycles_s'] = round(time.time() - t0, 1)
         ctx.coverage['tlc_trees'] = len(data['cases'])
         ctx.coverage['tlc_lifecycles'] = len(lives)
         cases = _pick_cases(ctx, [c['t'] for c in data['cases']], lives)
     _SCHEMA['schema'] = data['schema']
     _SCHEMA['attrs'] = data['attrs']
+    t1 = time.time()
+    lib_c11.preload()            # import pmutt once, before the worker processes fork
     results = core.pmap(_safe_execute, cases)
+    timing['execute_s'] = round(time.time() - t1, 1)
     traces = []
+    observed = []
     edges = set()
     for tid, (case, res) in enumerate(zip(cases, results)):
         if res[0] == 'machinery':
             raise core.MachineryError(res[1])
-        events, mism = res
+        events, mism, obs = res
+        observed.append(obs)
         ctx.evaluated()
         if any(e['ev'] == 'node' or (e['ev'] == 'call' and e['raised']) for e in events):
-            ctx.nontrivial(json.dumps([case['tree'], case['life']], sort_keys=True))
-        edges |= _classes(case['tree'])
+            ctx.nontrivial(json.dumps([case.get('tree', case.get('extra')), case['life']], sort_keys=True))
+        if 'tree' in case:
+            edges |= _classes(case['tree'])
         seen = set()
         for m in mism:
             tags = _replay_tags(m['tags'], m['call'])
+            if 'extra' in case:
+                tags['extra'] = case['extra']
             key = json.dumps(tags, sort_keys=True)
             if key not in seen:
                 seen.add(key)
                 ctx.violation('ReplayState', case, tags=tags, detail=m)
         traces.append((tid, events))
         if tid % 131 == 0:
-            ctx.sample({'root': case['tree']['c'], 'size': _size(case['tree']), 'life': case['life']})
+            ctx.sample({'root': case['tree']['c'] if 'tree' in case else case['extra'],
+                        'size': _size(case['tree']) if 'tree' in case else 0, 'life': case['life']})
     ctx.coverage['schema_edges_exercised'] = len(edges)
+    t1 = time.time()
     fails, stats = core.validate_traces('Trace_' + MODULE, 'Trace', traces)
+    timing['validate_s'] = round(time.time() - t1, 1)
     ctx.count('traces_validated_against_impl', len(traces))
     ctx.coverage['trace_lines'] = stats['lines']
     ctx.coverage['getter_comparisons'] = sum(len(e['items']) for _, evs in traces for e in evs if e['ev'] == 'getters')
@@ -196,6 +218,8 @@ def run(ctx):
     for tid, idx, clause in fails:
         ev = traces[tid][1][idx]
         base, tags = _tags_for(ev, clause)
+        if 'extra' in cases[tid]:
+            tags['extra'] = cases[tid]['extra']
         by_case.setdefault((tid, base, json.dumps(tags, sort_keys=True)), []).append(idx)
     for (tid, base, tg), idxs in sorted(by_case.items()):
         ev = traces[tid][1][idxs[0]]
@@ -204,22 +228,46 @@ def run(ctx):
             detail['first_event'] = {'path': ev['path'], 'cls': ev['cls'], 'act': ev['act']}
         ctx.violation(base, cases[tid], tags=json.loads(tg), detail=detail)
     # background work: design models must have behaved as expected
+    t1 = time.time()
     for f in futs:
         f.result()
+    timing['wait_for_models_s'] = round(time.time() - t1, 1)
+    ctx.coverage['timing'] = timing
     if ctx.replay_case is None:
+        rej = []
+        for pv in fut_rej.result().prints():
+            if core.tagged(pv, 'REJECTED'):
+                rej = sorted(core.parse_tla(pv)[1])
+        if rej != sorted(PINNED):
+            raise core.MachineryError('the tables of the pinned source should violate %s, TLC recorded %s'
+                                      % (sorted(PINNED), rej))
+        ctx.notes.append('design model with the tables of the pinned source: TLC records violations of '
+                         + ', '.join(rej))
         for m in ctx.coverage.get('models', []):
-            if '_pinned_' in m['cfg']:
-                inv = m['cfg'].split('_pinned_')[1]
-                if m['ok'] or m['violated'] != inv:
-                    raise core.MachineryError('pinned tables should violate %s, TLC said %r' % (inv, m))
-        ctx.notes.append('design model rejects the tables of the pinned source on: ' + ', '.join(PINNED))
-        try:
-            pinned_cases = fut_pinned.result()
-            npred = sum(1 for c in pinned_cases['cases'] if c['load'] != 'same' or c['dict'] != 'same'
-                        or c['untouched'] is not True or c['again'] != 'same')
-            ctx.coverage['pinned_model_predicts_divergence_on_trees'] = npred
-        except core.MachineryError as ex:
-            ctx.notes.append('pinned prediction not available: %s' % str(ex)[:200])
+            if m['cfg'].endswith('_pinned') and (m['ok'] or m['violated'] not in PINNED):
+                raise core.MachineryError('pinned tables should be rejected, TLC said %r' % (m,))
+        if not ctx.quick:
+            try:
+                pinned_cases = fut_pinned.result()
+                npred = sum(1 for c in pinned_cases['cases'] if c['load'] != 'same' or c['dict'] != 'same'
+                            or c['untouched'] is not True or c['again'] != 'same')
+                ctx.coverage['pinned_model_predicts_divergence_on_trees'] = npred
+                # cross-check (never a verdict): does the real tree behave as the pinned tables predict?
+                pred = {json.dumps(c['t'], sort_keys=True): c for c in pinned_cases['cases']}
+                agree = {'Load': [0, 0], 'DecodeDict': [0, 0]}
+                for case, obs in zip(cases, observed):
+                    pc = pred.get(json.dumps(case.get('tree'), sort_keys=True)) if 'tree' in case else None
+                    if pc is None:
+                        continue
+                    for call, key in (('Load', 'load'), ('DecodeDict', 'dict')):
+                        if call in obs:
+                            want = lib_c11.predicted_shape(pc[key], case['tree'], data['schema'])
+                            agree[call][1] += 1
+                            agree[call][0] += int(lib_c11.strip_shape(obs[call]) == want)
+                ctx.coverage['real_code_matches_pinned_model_class_trees'] = {
+                    k: '%d/%d' % tuple(v) for k, v in agree.items()}
+            except core.MachineryError as ex:
+                ctx.notes.append('pinned prediction not available: %s' % str(ex)[:200])
     pool.shutdown()
     ctx.assume('attribute values survive when their 17-digit decimal projections are equal; getter results '
                'are compared to 1e-13 relative')
